@@ -253,6 +253,8 @@ def hll_value(kind, i):
         return hashlib.blake2b(str(i).encode(), digest_size=6).hexdigest()
     if kind == 'str':
         return f'v{i}'
+    if kind == 'str-with-empty':
+        return ['', '0', ' ', 'None', 'False'][i] if i < 5 else f'v{i}'          # the first values are the empty string and falsy-looking strings
     if kind == 'unicode':
         return f'ü{i}é中'
     if kind == 'dec8':
